@@ -131,7 +131,13 @@ def run_pipeline(spec: Dict[str, Any]) -> Dict[str, Any]:
             except cat.Fault:
                 s._is_enabled = False
                 ctx.ev(e="escape")          # an injected callback exception propagated into the emitter / scheduler
-            except Exception as e:           # not ours: the catalogue fed the operator something it cannot take
+            except Exception as e:           # not ours: the catalogue fed the operator something it cannot take ...
+                if ctx.fault_raised and not spec.get("_nofault_probe") and _clean_without_fault(spec):
+                    # ... unless it only happens once a user function has raised (the same scenario without the injected
+                    # fault runs clean): then it is the operator's handling of the failure that lets an exception out
+                    s._is_enabled = False
+                    ctx.ev(e="escape")
+                    continue
                 foreign = e
                 break
     except _Hang:
@@ -172,6 +178,16 @@ def run_pipeline(spec: Dict[str, Any]) -> Dict[str, Any]:
     solo = len(spec["names"]) == 1 and "queued" not in flags
     return {"trace": {"strict": strict, "own": own, "solo": solo, "ev": ev}, "skip": None, "flags": sorted(flags), "nsubs": sid,
             "ngroups": len(groups), "ncb": ctx.ncb}
+
+
+def _clean_without_fault(spec) -> bool:
+    probe = dict(spec, fault_at=None, _nofault_probe=True)
+    probe.pop("fault_kind", None)
+    try:
+        r = run_pipeline(probe)
+    except Exception:
+        return False
+    return r.get("trace") is not None
 
 
 def attribute(ev: List[Dict[str, Any]], upto: int, strict: bool) -> Tuple[str, str]:
